@@ -40,6 +40,10 @@ type Options struct {
 	RandomCase bool
 	// MaxDepth bounds expression/statement nesting.
 	MaxDepth int
+	// LeadHTML, when non-empty, is emitted as inline HTML at the very start of the file (before the
+	// first open tag): padding that moves every later token past offset / line thresholds
+	// (256 or 65536 lines, 65536 bytes) without making the program expensive to generate.
+	LeadHTML []byte
 	// NoHTML disables close tags / inline HTML / <?= inside the program.
 	NoHTML bool
 	// NoHalt disables __halt_compiler.
